@@ -203,6 +203,18 @@ func newOperation(expr parser.ItemType, vectorBinOp bool) (operation, error) {
 	return nil, parse.UnsupportedOperationErr(expr)
 }
 
+// shouldDropMetricName returns whether the metric name should be dropped in the
+// result of the op operation: for arithmetic operators (atan2 is not one of them
+// in the Prometheus engine) and for comparisons with the bool modifier.
+func shouldDropMetricName(op parser.ItemType, returnBool bool) bool {
+	switch op {
+	case parser.ADD, parser.SUB, parser.DIV, parser.MUL, parser.POW, parser.MOD:
+		return true
+	default:
+		return returnBool
+	}
+}
+
 // btof returns 1 if b is true, 0 otherwise.
 func btof(b bool) float64 {
 	if b {
